@@ -399,6 +399,137 @@ theorem item_in_area_aligned_full (c : GContainer) (it : GItem) (px py areaW are
     have e2 : (as == SelfAlign.endLike) = false := by simpa using b
     rw [hr]; simp [e1, e2]
 
+/-! ## step 3.5: the tracks, the gaps and the distributed free space partition the container -/
+
+/-- plain sum of a list (the model's `sumR` is a `foldl`: `sumR_eq_sumL`) -/
+def sumL : List Rat → Rat
+  | [] => 0
+  | x :: xs => x + sumL xs
+
+private theorem foldl_add (l : List Rat) : ∀ acc : Rat, l.foldl (· + ·) acc = acc + sumL l := by
+  induction l with
+  | nil => intro acc; simp only [List.foldl_nil, sumL]; grind
+  | cons x xs ih => intro acc; simp only [List.foldl_cons, sumL, ih]; grind
+
+theorem sumR_eq_sumL (l : List Rat) : sumR l = sumL l := by
+  unfold sumR; rw [foldl_add]; grind
+
+/-- position of the first track -/
+def alignStart (a : ContentAlign) (start free : Rat) (n : Nat) : Rat :=
+  match a with
+  | .center => start + free / 2
+  | .endLike => start + free
+  | .spaceAround => start + free / 2 / n
+  | .spaceEvenly => start + free / (n + 1 : Nat)
+  | _ => start
+
+/-- distance between the end of a track and the start of the next one -/
+def alignBetween (a : ContentAlign) (free gap : Rat) (n : Nat) : Rat :=
+  match a with
+  | .spaceAround => free / n + gap
+  | .spaceBetween => if n ≥ 2 then free / (n - 1 : Nat) + gap else 0
+  | .spaceEvenly => free / (n + 1 : Nat) + gap
+  | _ => gap
+
+/-- space left after the last track -/
+def alignTrail (a : ContentAlign) (free : Rat) (n : Nat) : Rat :=
+  match a with
+  | .center => free / 2
+  | .endLike => 0
+  | .spaceAround => free / 2 / n
+  | .spaceBetween => 0
+  | .spaceEvenly => free / (n + 1 : Nat)
+  | _ => free
+
+private theorem alignTracks_eq (a : ContentAlign) (start free gap : Rat) (sizes : List Rat) :
+    alignTracks a start free gap sizes =
+      alignTracks.go (alignBetween a free gap sizes.length) (a == .spaceBetween && decide (sizes.length < 2)) sizes
+        (alignStart a start free sizes.length) := by
+  unfold alignTracks alignStart alignBetween
+  cases a <;> rfl
+
+private theorem go_pos (between : Rat) :
+    ∀ (sizes : List Rat) (x : Rat) (i : Nat), i < sizes.length →
+      (alignTracks.go between false sizes x)[i]? = some (x + sumL (sizes.take i) + (i : Rat) * between) := by
+  intro sizes
+  induction sizes with
+  | nil => intro x i hi; simp at hi
+  | cons s rest ih =>
+    intro x i hi
+    unfold alignTracks.go
+    cases i with
+    | zero => simp [sumL]; grind
+    | succ j =>
+      have hj : j < rest.length := by simpa using hi
+      simp only [Bool.false_eq_true, if_false, List.getElem?_cons_succ, List.take_succ_cons, sumL]
+      rw [ih _ j hj]
+      congr 1
+      push_cast
+      grind
+
+/-- `tracks_partition`, step 3.5 (all inputs): whatever the `justify-content` / `align-content` value, track `i` starts
+at `first + Σ_{j<i} size_j + i·between`, and the leading space, the tracks, the spaces between them (gap + distributed
+share) and the trailing space add up to the free space, the tracks and the gaps: with
+`free = container − Σ sizes − (n − 1)·gap ≥ 0` (what `grid_layout` passes since repair 0e77b99) they partition the
+container (`alignTracks_fills`).  For `space-between` at least two tracks are needed (with fewer the code keeps
+every track at the start). -/
+theorem alignTracks_partition (a : ContentAlign) (start free gap : Rat) (sizes : List Rat) (hn : sizes ≠ [])
+    (hsb : a = .spaceBetween → 2 ≤ sizes.length) :
+    (∀ i, i < sizes.length → (alignTracks a start free gap sizes)[i]? =
+      some (alignStart a start free sizes.length + sumL (sizes.take i) +
+        (i : Rat) * alignBetween a free gap sizes.length)) ∧
+    (alignStart a start free sizes.length - start) + sumL sizes +
+      ((sizes.length : Rat) - 1) * alignBetween a free gap sizes.length + alignTrail a free sizes.length =
+      free + sumL sizes + ((sizes.length : Rat) - 1) * gap := by
+  have hstay : (a == ContentAlign.spaceBetween && decide (sizes.length < 2)) = false := by
+    cases a <;> simp
+    have := hsb rfl
+    omega
+  constructor
+  · intro i hi
+    rw [alignTracks_eq, hstay]
+    exact go_pos _ sizes _ i hi
+  · obtain ⟨m, hm⟩ : ∃ m, sizes.length = m + 1 := by
+      cases sizes with
+      | nil => exact absurd rfl hn
+      | cons x xs => exact ⟨xs.length, rfl⟩
+    rw [hm]
+    have h1 : ((m + 1 : Nat) : Rat) = (m : Rat) + 1 := by push_cast; rfl
+    have h2 : ((m + 1 + 1 : Nat) : Rat) = (m : Rat) + 2 := by push_cast; grind
+    have h0 : (0 : Rat) ≤ (m : Rat) := Rat.natCast_nonneg
+    have h3 : (m : Rat) + 1 ≠ 0 := by grind
+    have h4 : (m : Rat) + 2 ≠ 0 := by grind
+    cases a <;> simp only [alignStart, alignBetween, alignTrail, h1, h2] <;> try grind
+    -- space-between
+    have h2le : 2 ≤ m + 1 := by have := hsb rfl; omega
+    have hm' : (m : Rat) ≠ 0 := by
+      have : m ≠ 0 := by omega
+      intro h; apply this; exact_mod_cast h
+    simp only [ge_iff_le, h2le, if_true, Nat.add_sub_cancel]
+    grind
+
+/-- `tracks_partition`, step 3.5, as `grid_layout` calls it: when the tracks and gaps fit in the container
+(`container − Σ sizes − (n − 1)·gap ≥ 0`), the leading space, the tracks, the spaces between them and the trailing
+space fill the container exactly. -/
+theorem alignTracks_fills (a : ContentAlign) (container gap : Rat) (sizes : List Rat) (hn : sizes ≠ [])
+    (hsb : a = .spaceBetween → 2 ≤ sizes.length)
+    (hfit : 0 ≤ container - sumR sizes - ((sizes.length : Int) - 1 : Int) * gap) :
+    let free := max 0 (container - sumR sizes - ((sizes.length : Int) - 1 : Int) * gap)
+    alignStart a 0 free sizes.length + sumL sizes +
+      ((sizes.length : Rat) - 1) * alignBetween a free gap sizes.length + alignTrail a free sizes.length = container := by
+  intro free
+  have hfree : free = container - sumR sizes - ((sizes.length : Int) - 1 : Int) * gap := by
+    show max 0 _ = _
+    rw [Rat.max_def]
+    split
+    · rfl
+    · rename_i hneg; exact absurd hfit hneg
+  have h := (alignTracks_partition a 0 free gap sizes hn hsb).2
+  rw [sumR_eq_sumL] at hfree
+  have hc : (((sizes.length : Int) - 1 : Int) : Rat) = (sizes.length : Rat) - 1 := by push_cast; rfl
+  rw [hc] at hfree
+  grind
+
 /-! Non-vacuity -/
 
 -- names: `[p] 10px [foo] 20px [a-start] 30px [a-end foo]`
@@ -454,6 +585,14 @@ example :
     let lines := [[], ["foo"], [], ["foo"], []]
     nthName "foo" (pySliceFrom lines 1) 0 2 = some 2 ∧
     (getPlacement (lineNo 1) (.mk true (some 2) (some "foo")) lines).toOption = some (some (0, 3)) := by
+  decide +kernel
+
+-- alignTracks_partition / alignTracks_fills: two 20px tracks, gap 10, `space-around` in 90px (free 40): the tracks
+-- start at 10 and 60, the trailing space is 10: 10 + 20 + 30 + 20 + 10 = 90
+example :
+    alignTracks .spaceAround 0 40 10 [20, 20] = [10, 60] ∧ alignStart .spaceAround 0 40 2 = 10 ∧
+    alignBetween .spaceAround 40 10 2 = 30 ∧ alignTrail .spaceAround 40 2 = 10 ∧
+    (0 : Rat) ≤ 90 - sumR [20, 20] - ((([20, 20] : List Rat).length : Int) - 1 : Int) * 10 := by
   decide +kernel
 
 end Wp.C12
